@@ -9,16 +9,16 @@ NOTE = ("trusted: rustc nightly MIR printer, the mirsym executor and its closed 
         "the native replay driver; a pass means no counterexample within evidence.coverage.bounds, nothing outside them")
 CLAIMS = {
  'C18': ("priority-queue order of the weighted search only: DijkstraEntry::cmp is a total order over every f64 bit pattern, cheapest first, ties by id, partial_cmp consistent; the searches themselves are not decided", "§4 C18"),
- 'C20': ("codec round trips (varint, delta, id lists, RLE) and decoder totality on arbitrary bytes, for every value within the stated lengths", "§4 C20"),
- 'C01': ("per-handler inductive Raft obligations (terms monotone, one vote per term to an up-to-date candidate, persisted before reply; AppendEntries acknowledges/commits only the vouched prefix and matches the leader's entries; leader commit rule; stale responses ignored; election quorum; pre-vote read-only) for every pre-state and message of the bounded shape; the composition into cluster-level safety is the textbook argument, not machine-checked", "§4 C01"),
- 'C02': ("durable store, log framing only: every acknowledged log record is read back in order after a crash at any byte of the last record (immediate sync) or at any length above the synced length (manual sync), and after a further append + restart; slab contents/checkpoints are not decided", "§4 C02"),
- 'C03': ("coordinator decision rules, one call from an arbitrary pending table: Prepared only from Preparing with a Yes from every participant, Aborting only when all voted and a vote is not Yes or a cross-shard conflict was found, commit only from Prepared with TxComplete logged before any lock release and the transaction removed, errors change nothing, timeouts abort once, Yes-vote lock handles are released; participants and message interleavings are not decided", "§4 C03"),
+ 'C20': ("codec round trips (varint incl. long lists with one arbitrary value, delta, id lists sorted and unsorted, RLE), decoder totality on arbitrary bytes, TCP frame v1/v2 encode/decode inverse with the size limit, for every value within the stated lengths", "§4 C20"),
+ 'C01': ("per-handler inductive Raft obligations (terms monotone, one vote per term to an up-to-date candidate, persisted before reply, vote never changed within a term by any handler; AppendEntries acknowledges/commits only the vouched prefix and matches the leader's entries; leader commit rule; stale responses ignored; election quorum; pre-vote read-only) for every pre-state and message of the bounded shape; the composition into cluster-level safety is the textbook argument, not machine-checked", "§4 C01"),
+ 'C02': ("durable store, log level: every acknowledged log record is read back in order after a crash at any byte of the last record (immediate sync) or at any length above the synced length (manual sync), after a further append + restart, and across truncate() (checkpoint step); put_durable/delete_durable write and fsync the record before the in-memory apply and do not apply on a log error; slab contents, snapshots and recovery of the store image are not decided", "§4 C02"),
+ 'C03': ("coordinator decision rules, one call from an arbitrary pending table (Prepared only from Preparing with a Yes from every participant, Aborting only when all voted and a vote is not Yes or a cross-shard conflict was found, commit only from Prepared with TxComplete logged before any lock release, recorded votes never replaced, errors change nothing, timeouts abort once, Yes-vote lock handles released) and participant handlers over the store's key/value contract (prepare applies nothing, commit applies exactly the prepared writes, abort/stale cleanup leave every key as it was, locks released; one known finding: a second prepare is granted on a key of a still-prepared transaction after the lock TTL); message interleavings across shards are not decided", "§4 C03"),
  'C04': ("index key encodings vs the row-level predicate for every Int/Float/Bool/Null pair (hash-index and ordered-index lookups are complete), OrderedFloat total preorder, and the vectorised filters bit for bit against the scalar predicate (f64 kernels in the MIR executor, i64 kernels and bitmap ops under Kani); plan equivalence over engine state is not decided", "§4 C04"),
  'C06': ("stored-representation round trip only: to_dense(try_from_dense(v)) for every f32 bit pattern up to the stated dimension, representation invariants; scores/top-k/HNSW/cache not decided", "§4 C06"),
  'C07': ("snapshot header codec only: raw round trip, validate accepts exactly the v3 magic + current version, every single-bit flip in magic/version rejected; slab contents and rename atomicity not decided", "§4 C07"),
- 'C10': ("RaftWal: crash at every byte of the last record, reopen, append, restart: no acknowledged term/vote/log record is lost; recovery classification returns the last persisted term and vote", "§4 C10"),
+ 'C10': ("RaftWal: crash at every byte of the last record, reopen, append, restart: no acknowledged term/vote/log record is lost; recovery classification returns the last persisted term and vote; node level with the real WAL behind the real handlers: after handle_request_vote/start_election/handle_append_entries the term, vote and log rebuilt by the real from_wal equal the in-memory ones (crash is the only fault)", "§4 C10"),
  'C12': ("sequential lock-table and wait-graph bookkeeping from an arbitrary table satisfying the representation invariant: conflicts refused with nothing acquired, grants all-or-nothing under a fresh handle, release/expiry leave nothing behind, invariant preserved, forward/reverse wait edges stay mirror images, victim is a member of the cycle; thread interleavings and cycle detection are not decided", "§4 C12"),
- 'C13': ("TxWal: same crash obligations as C10; TxRecoveryState::from_entries never resurrects a completed transaction, returns prepared ones with their votes, forgets preparing ones and lists orphaned lock handles exactly", "§4 C13"),
+ 'C13': ("TxWal: same crash obligations as C10; TxRecoveryState::from_entries never resurrects a completed transaction, returns prepared ones with their votes, forgets preparing ones and lists orphaned lock handles exactly; coordinator commit()/abort() with the real TxWal: a crash at any byte of the call recovers either the logged decision or the still-prepared transaction, never the opposite outcome", "§4 C13"),
  'C15': ("both real Pratt loops (ExprParser and Parser) executed on symbolic token streams: for every pair of infix operators a OP1 b OP2 c groups per the documented precedence levels and left associativity, prefix operators bind tighter than every infix operator, token->operator map is injective; lexer/totality/depth/text-vs-engine equivalence not decided", "§4 C15"),
  'C17': ("newer-wins kernel is a strict order; the real merge gives the same view for every order/batching/repetition of the same updates; clock and incarnations never regress under any single operation", "§4 C17"),
 }
